@@ -97,3 +97,31 @@ Proof.
   - rewrite <- Hr. apply IH; [apply set_patterns_NoDup|].
     destruct (set_patterns_prefix g cli file Hn) as [s Hs]. rewrite Hs. destruct g; [congruence|discriminate].
 Qed.
+
+(* ---- the effective list is stable once it has been written: reading it back as "previous patterns" gives it again ---- *)
+Lemma append_patterns_skip : forall l1 acc l2, (forall x, In x l1 -> In x acc) -> append_patterns acc (l1 ++ l2) = append_patterns acc l2.
+Proof.
+  induction l1 as [|y l1 IH]; intros acc l2 H; [reflexivity|]. cbn [app append_patterns].
+  assert (E : mem_text y acc = true) by (apply mem_text_In; apply H; left; reflexivity). rewrite E. apply IH. intros x Hx. apply H. right. exact Hx.
+Qed.
+Lemma NoDup_app_parts {A} (a b : list A) : NoDup (a ++ b) -> NoDup b /\ forall x, In x b -> ~ In x a.
+Proof.
+  induction a as [|y a IH]; cbn; intros H; [split; [exact H|tauto]|]. inversion H as [|? ? Hy Hn]; subst.
+  destruct (IH Hn) as [H1 H2]. split; [exact H1|]. intros x Hx [->|Hin]; [apply Hy; apply in_or_app; right; exact Hx|exact (H2 x Hx Hin)].
+Qed.
+Theorem set_patterns_stable cli file :
+  let l := set_patterns [] cli file in set_patterns [] l [] = l /\ set_patterns l [] [] = l.
+Proof.
+  cbn zeta. set (l := set_patterns [] cli file).
+  assert (Hn : NoDup l) by apply set_patterns_NoDup.
+  destruct (set_patterns_prefix [] cli file (NoDup_nil _)) as [s Hs]. fold l in Hs. unfold base_of in Hs.
+  assert (Hd : append_patterns [] default_ignore = default_ignore).
+  { rewrite append_patterns_fresh; [reflexivity| |intros x _ []]. repeat constructor; cbn; intros H; repeat destruct H as [H|H]; try discriminate H; auto. }
+  split.
+  - unfold set_patterns at 1. cbn [append_patterns]. rewrite Hd, Hs. rewrite append_patterns_skip by tauto.
+    rewrite Hs in Hn. destruct (NoDup_app_parts _ _ Hn) as [Hns Hdis]. apply append_patterns_fresh; assumption.
+  - assert (Hne : l <> []) by (rewrite Hs; discriminate). clear Hs Hd. clearbody l.
+    unfold set_patterns. destruct l as [|x l']; [congruence|].
+    change (append_patterns (append_patterns (append_patterns [] (x :: l')) []) []) with (append_patterns [] (x :: l')).
+    rewrite append_patterns_fresh; [reflexivity|exact Hn|intros y _ []].
+Qed.
